@@ -48,6 +48,7 @@ let () = run_lines (fun toks ->
        else
          (match src_of ss with
           | None -> "NOMODEL"
+          | Some (Model.SRU _) when (match r with Model.RModRU _ -> false | _ -> true) -> "NOMODEL"   (* RecInt sources into word rings: not modelled *)
           | Some s ->
             let x = zs xs in
             let e = show_init r s m x in
